@@ -32,8 +32,10 @@ class SPEC:
             "inside a message; distinct by hash of the op list.")
     assumptions = [
         "TCP is a reliable byte stream: whatever the network and the timing do, the reader's Reads return some segmentation of the "
-        "stream; net.Pipe realises each chosen segmentation exactly (delays between segments only make the reader block, which is "
-        "the state every `fr seg` starts from; no delay = a coarser segmentation, also enumerated)",
+        "stream; net.Pipe realises each chosen segmentation exactly (a delay between two segments makes the reader block, which is "
+        "the state every `fr seg` starts from; no delay = a coarser segmentation, also enumerated). A delay may be arbitrarily long: a "
+        "read deadline the reader arms on its connection is therefore made to expire whenever the reader has to wait for the next "
+        "segment (the harness's connection hands the reader one timeout per stream position; the unchanged reader arms none)",
         "bufio.Reader.Peek / io.ReadFull behave as documented (modelled, not verified; exercised through the real reader)",
         "a crash of decodePacket (panic in the reader goroutine) is property C03's subject; the model maps it to a decoding error",
     ]
